@@ -423,8 +423,21 @@ def rule_r3(repo: Repo, res: Result) -> None:
         alts = alternatives(el)
         want = canon([("parts", ("NOSUF", rel))] if base_loc[0] == "PARENT" else [("item", ("attr", root, "name")), ("parts", ("NOSUF", rel))])
         want_root = [("item", ("attr", root, "name"))]
-        general = [(g, v) for g, v in alts if dotted(v) != want_root]
-        rootcase = [(g, v) for g, v in alts if dotted(v) == want_root]
+        # the general form without suffix removal, used only when the path is the root (its relative path has no parts), is the root's name
+        tests0 = _root_tests(sx, [g for g, _ in alts], rel, root)
+        unsuffixed = canon([("parts", rel)] if base_loc[0] == "PARENT" else [("item", ("attr", root, "name")), ("parts", rel)])
+
+        def names_root(g: Formula, v: Term) -> bool:
+            d_ = dotted(v)
+            if d_ == want_root:
+                return True
+            if d_ != unsuffixed or not tests0 or g == TRUE:
+                return False
+            g_ = rename_atoms(g, lambda k: (atom("ROOT") if tests0[k] else f_not(atom("ROOT"))) if k in tests0 else None)
+            return implies(g_, atom("ROOT"))
+
+        general = [(g, v) for g, v in alts if not names_root(g, v)]
+        rootcase = [(g, v) for g, v in alts if names_root(g, v)]
         done += 1
         # ---- general shape
         bad = [(g, v) for g, v in general if dotted(v) != want]
@@ -1300,6 +1313,15 @@ def _all_guard_atoms(sx: SymX, t: Term, internal: Term, depth: int = 0) -> set[s
     return out
 
 
+def _joins_parts(t: Term) -> bool:
+    """`".".join(p.parts)`: empty for the empty relative path (the text of that path, also split and joined again, is ".")."""
+    u = unbox(t)
+    if not (u[0] == "mcall" and u[2] == "join" and len(u[3]) == 1):
+        return False
+    l = loc(u[3][0])
+    return l[0] == "attr" and l[2] == "parts"
+
+
 def _same_tests(sx: SymX, keys, M: Term, R: Term) -> dict[str, bool]:
     """Atoms that test 'root_path equals module_path' -> polarity (True: the atom holds exactly when they are equal)."""
     rel_mr = ("REL", M, R)
@@ -1312,7 +1334,10 @@ def _same_tests(sx: SymX, keys, M: Term, R: Term) -> dict[str, bool]:
         if t[0] == "cmp" and t[1] == "==":
             a, b2 = t[2], t[3]
             c, o = (a, b2) if a[0] == "const" else (b2, a)
-            if is_const(c, ".") and (dotted(o) == [("parts", rel_mr)] or loc(o) == rel_mr):
+            joined = _joins_parts(o)  # ".".join(()) is "", not "."
+            if is_const(c, ".") and not joined and (dotted(o) == [("parts", rel_mr)] or loc(o) == rel_mr):
+                tests[k_] = True
+            elif is_const(c, "") and joined and dotted(o) == [("parts", rel_mr)]:
                 tests[k_] = True
             elif {strip_abs(loc(a)), strip_abs(loc(b2))} == {M, R}:
                 tests[k_] = True
@@ -1320,6 +1345,8 @@ def _same_tests(sx: SymX, keys, M: Term, R: Term) -> dict[str, bool]:
             tests[k_] = False
         elif dotted(t) == want or loc(t) == ("attr", want[0][1], "parts"):
             tests[k_] = False  # the absolute-import prefix itself is empty exactly when both paths coincide
+        elif _joins_parts(t) and dotted(t) == [("parts", rel_mr)]:
+            tests[k_] = False  # the joined parts of the relative path are empty exactly when both paths coincide
     return tests
 
 
